@@ -597,7 +597,9 @@ class Executor:
                     if isinstance(i, Raise):
                         outs.append((s2, ('exc', i.exc)))
                         continue
-                    for s3, r in models.setitem(self, s2, o, i, val, tgt):
+                    d = self.dunder(s2, o, '__setitem__')
+                    res = self.call(s2, d, [i, val], {}, tgt) if d is not None else models.setitem(self, s2, o, i, val, tgt)
+                    for s3, r in res:
                         outs.append((s3, ('exc', r.exc) if isinstance(r, Raise) else None))
             return outs
         raise Unsupported(f'assignment target {type(tgt).__name__}')
@@ -639,7 +641,9 @@ class Executor:
                     if isinstance(i, Raise):
                         outs.append((s2, ('exc', i.exc)))
                         continue
-                    for s3, r in models.delitem(self, s2, o, i, tgt):
+                    d = self.dunder(s2, o, '__delitem__')
+                    res = self.call(s2, d, [i], {}, tgt) if d is not None else models.delitem(self, s2, o, i, tgt)
+                    for s3, r in res:
                         outs.append((s3, ('exc', r.exc) if isinstance(r, Raise) else None))
             return outs
         raise Unsupported('del target')
@@ -1092,7 +1096,11 @@ class Executor:
                     if isinstance(i, Raise):
                         outs.append((s2, i))
                     else:
-                        outs.extend(models.getitem(self, s2, o, i, node))
+                        d = self.dunder(s2, o, '__getitem__')
+                        if d is not None:
+                            outs.extend(self.call(s2, d, [i], {}, node))
+                        else:
+                            outs.extend(models.getitem(self, s2, o, i, node))
             return outs
         if t is ast.Call:
             return self.ev_call(node, st)
@@ -1382,6 +1390,16 @@ class Executor:
             return [(st, st.read_field(o, attr))]
         raise Unsupported(f'attribute {attr} of {k}')
 
+    def dunder(self, st: State, o: V, name: str):
+        """Bound method V if the (static) class of `o` defines `name` in the repo sources."""
+        if o.kind != 'ref' or not isinstance(o.cls, tuple):
+            return None
+        found = self.repo.find_method(o.cls[0], o.cls[1], name)
+        if found is None:
+            return None
+        mod, cdef, fn = found
+        return V('func', py=FuncVal('repo', mod=mod, clsdef=cdef, fn=fn, self_v=o, qual=f'{mod.name}:{cdef.name}.{name}'))
+
     def is_method_name(self, o: V, attr: str, path) -> bool:
         par = getattr(self, '_call_func_node', None)
         return par is not None and par[1] == attr
@@ -1603,6 +1621,9 @@ class Executor:
         if f.kind == 'exccls':
             return [(st, V('pyconst', py=self.mk_exc(f.py, node, args=tuple(args))))]
         if f.kind != 'func':
+            summ = self.ctx.callees.get(f.path) if f.path else None
+            if summ is not None:
+                return summ.apply(self, st, None, args, kwargs, node)
             hooks = self.ctx.hooks
             if hooks is not None and hasattr(hooks, 'on_call_value'):
                 r = hooks.on_call_value(self, st, f, args, kwargs, node)
